@@ -134,6 +134,8 @@ class Polyhedron(Shape3D):
 
     def __init__(self, vertices, faces, faces_are_convex=None):
         self._vertices = np.array(vertices, dtype=np.float64)
+        if self._vertices.ndim != 2 or self._vertices.shape[1] != 3:
+            raise ValueError("Vertices must be specified as an Nx3 array.")
         # Copy the faces: sort_faces reorders them in place.
         self._faces = [
             face.copy() if isinstance(face, np.ndarray) else list(face) for face in faces
